@@ -4,7 +4,7 @@ from concurrent.futures import ThreadPoolExecutor
 sys.path.insert(0, os.path.join(os.path.dirname(os.path.abspath(__file__)), '..', 'lib'))
 import vcommon as V
 
-PROPS = ['props/C17.v', 'props/C17_src.v']
+PROPS = ['props/C17.v', 'props/C17_src.v', 'props/State.v']
 ASSUMPTIONS = [
     "match/scanChunk/matchChunk/getEsc and utf8.DecodeRuneInString are modelled (model/Glob.v), not assumed; the model is "
     "compared three-valued (match / no match / bad pattern) with the Go code on every run, exhaustively on short strings",
